@@ -162,6 +162,74 @@ def check_description_only(ck, rng, n):
         env.uninstall()
 
 
+def check_registry_file(ck, rng, rounds):
+    """The registry as the repository's own loader reads it: a `pel_registry` package that names a JSON file, separate peltool runs,
+    the file replaced between the runs (newer, same and OLDER modification time -- package downgrade, `cp -p`).  Each run must
+    describe the SRC from the file's CURRENT content: what it shows is compared with the same decode in this process with
+    that registry installed directly."""
+    import os, shutil, tempfile, time
+    import clirun, pelbuild
+    from pel.peltool import src as _src
+    root = tempfile.mkdtemp(prefix='c03reg_')
+    try:
+        pkg = os.path.join(root, 'site', 'pel_registry')
+        os.makedirs(pkg)
+        with open(os.path.join(pkg, '__init__.py'), 'w') as f:
+            f.write("import os\ndef get_registry_path():\n    return os.path.join(os.path.dirname(__file__), 'message_registry.json')\n")
+        regfile = os.path.join(pkg, 'message_registry.json')
+        extra = {'PYTHONPATH': common.child_env()['PYTHONPATH'] + os.pathsep + os.path.join(root, 'site')}
+        for rnd in range(rounds):
+            def entry(msg, code='0x8D12', ty='BD'):
+                return {'SRC': {'ReasonCode': code, 'Type': ty, 'Words6To9': {'6': {'Description': 'w6 ' + msg[:4], 'AdditionalDataPropSource': 'P'}}},
+                        'Documentation': {'Message': msg, 'MessageArgSources': ['SRCWord6'], 'Description': 'long text ' * 5, 'Notes': ['n']}}
+            versions = [[entry('first wording %1'), entry('shadowed')], [entry('second wording, word is %1')], [entry('other code', code='0x8D13')],
+                        [entry('third wording'), entry('x', ty='11')]]
+            if rnd:
+                g = [r for r in (gen_registry(rng) for _ in range(12)) if hit_ascii(rng, r)][:3]
+                versions = g + versions[:2] if len(g) >= 2 else versions
+            asc = (hit_ascii(rng, versions[0]) if rnd else None) or b'BD128D12'
+            data = pelbuild.pel([pelbuild.UH(), pelbuild.SRC(asc=asc, words=[0x02000055, 0, 0, 0, 0xCAFE0001, 2, 3, 4])], creator=b'O', eid=0x0C030000 + rnd)
+            pelfile = os.path.join(root, 'pel_%d' % rnd)
+            with open(pelfile, 'wb') as f:
+                f.write(data)
+            t0 = time.time() - 5000
+            # (how the file is replaced, modification time relative to the first version's)
+            steps = [('written', 0)] + [(rng.choice(['replaced', 'rewritten in place']), dt) for dt in (-300, 0, +300, -1)]
+            for i, (how, dt) in enumerate(steps):
+                reg = versions[i % len(versions)]
+                if how == 'replaced':
+                    tmpf = regfile + '.new'
+                    with open(tmpf, 'w') as f:
+                        json.dump({'PELs': reg}, f)
+                    os.replace(tmpf, regfile)
+                else:
+                    with open(regfile, 'w') as f:
+                        json.dump({'PELs': reg}, f)
+                os.utime(regfile, (t0 + dt, t0 + dt))
+                old = _src.registry.pels
+                _src.registry.pels = reg
+                try:
+                    want = apel.real_decode(data)
+                finally:
+                    _src.registry.pels = old
+                so, se, sx = clirun.run_sub(['-f', pelfile, '-E'], env_extra=extra)
+                try:
+                    got = json.loads(so)
+                except Exception:
+                    got = None
+                ck.case(key=('registry-file', rnd, i))
+                ck.count('registry read from a file: %s, mtime %s' % (how, 'same' if dt == 0 else 'older' if dt < 0 else 'newer'))
+                wantdoc = json.loads(want[4]) if want[0] == 'doc' else None
+                if wantdoc is not None and '"Error Details"' in want[4]:
+                    ck.count('registry read from a file: "Error Details" expected')
+                if got != wantdoc:
+                    ck.fail('with the registry read from its file (%s, modification time %+d s relative to the first version) the SRC is not described from the file\'s current content' % (how, dt),
+                            {'op': 'registry-file', 'step': i, 'how': how, 'registry': reg, 'previous': versions[(i - 1) % len(versions)] if i else None, 'data_hex': data.hex(),
+                             'stdout': so[:600], 'stderr': se[-300:], 'expected': (want[4] or '')[:600]}, 'registry_file')
+    finally:
+        shutil.rmtree(root, ignore_errors=True)
+
+
 def run(tier, seed):
     ck = Check('C03', tier, seed)
     ck.proof = common.build_and_audit('C03', thorough=(tier == 'thorough'))
@@ -235,6 +303,7 @@ def run(tier, seed):
         del ck.dist[k]
     ck.dist['distinct (FRU flags, PCE, MRU count) combinations exercised'] = len(combos)
     check_description_only(ck, rng, 120 if thorough else 40)
+    check_registry_file(ck, rng, 6 if thorough else 2)
     return ck.finish(RULE, TRUSTED, ASSUME)
 
 
